@@ -3,7 +3,7 @@ CFG = dict(
     props_files=["theories/Props/C02.v"], corr_file="theories/Corr/C02.v", corr_module="Corr.C02",
     groups={"root": False, "append": False, "wrap": False},
     show_fn={"root": "model_root", "append": "model_append", "wrap": "model_wrap"},
-    shard=60,
+    shard=120,
     design_ref="DESIGN.md 6.2, A.2; notes/C02.md",
     technique="Coq proof (MatchResult::apply re-slices exactly its span for every well-formed match; root_parse covers every "
               "token; append/wrap preserve well-formedness) + correspondence of the Gallina root_parse/apply/append/wrap with "
